@@ -73,7 +73,8 @@ CHECKS["C20"]["note"] = (_NOTE + "ASSUMED: matplotlib / plotly primitives draw w
 for _p, _t in {
     "C03": "Unbounded (ANY number of bins, z3 array terms + a quantified searchsorted contract): Histogram1D.find_bin and fill -- the reported bin contains the value, exactly that bin is "
            "incremented by w (squared error by w*w), under/overflow/gap bookkeeping, statistics, dtype; Histogram1D.fill_n for a batch of ANY length (every bin gains the weight of exactly "
-           "the batch entries inside it -- what folding fill over the batch adds; loop invariant + inductive lemmas of C01). ",
+           "the batch entries inside it -- what folding fill over the batch adds; loop invariant + inductive lemmas of C01); HistogramND.fill of one point into a 2-D histogram of ANY shape "
+           "(the reported cell contains the point on both axes, exactly that cell gains the weight, otherwise `missed` does). ",
     "C05": "Unbounded (any number of bins): __iadd__ of histograms over the same bins adds contents and squared errors bin by bin, missed values, dtype promotion, other operand untouched. ",
     "C06": "Unbounded (any number of bins): __imul__ / __itruediv__ scale every content by c and every squared error by c*c; in-place normalize keeps proportions. ",
     "C12": "Unbounded: Histogram1D.copy shares nothing writable for any number of bins; slices h[a:b] are independent of their source. ",
